@@ -1411,6 +1411,21 @@ func (vc *VC) loopHead(fr *Frame, li *loopInfo, st *State, phis []*ssa.Phi, entr
 	if _, ok := mods[vc.nextComp()]; ok {
 		vc.assume(head, fmt.Sprintf("(>= %s %s)", vc.get(head, vc.nextComp()), entryNext))
 	}
+	// user-declared frame of the loop: these locations keep their entry value (checked on every back edge)
+	if ls != nil {
+		li.preserved = nil
+		for _, pe := range ls.Preserves {
+			env := vc.specEnvCur(fr, st, fr.oldStOrSelf(st), locals)
+			for _, l := range vc.locsOf(env, pe) {
+				if l.Ref == "" {
+					head.heap[l.Comp] = vc.get(st, l.Comp)
+				} else {
+					vc.set(head, l.Comp, fmt.Sprintf("(store %s %s (select %s %s))", vc.get(head, l.Comp), l.Ref, vc.get(st, l.Comp), l.Ref))
+				}
+				li.preserved = append(li.preserved, [3]string{l.Comp, l.Ref, vc.get(head, l.Comp)})
+			}
+		}
+	}
 	// event counters only grow
 	for _, k := range keys {
 		if strings.HasPrefix(k, "ev.") {
@@ -1498,6 +1513,19 @@ func (vc *VC) loopBackEdge(fr *Frame, li *loopInfo, from *ssa.BasicBlock, ex *bl
 					vc.fatalf("loop-carried slice %s does not stay at offset 0", ph.Comment)
 				}
 			}
+		}
+	}
+	if len(li.preserved) > 0 {
+		fst := ex.st.clone()
+		fst.pc = ex.conds[si]
+		for i, p := range li.preserved {
+			var goal string
+			if p[1] == "" {
+				goal = fmt.Sprintf("(= %s %s)", vc.get(fst, p[0]), p[2])
+			} else {
+				goal = fmt.Sprintf("(= (select %s %s) (select %s %s))", vc.get(fst, p[0]), p[1], p[2], p[1])
+			}
+			vc.oblige(fst, fmt.Sprintf("%s#loop%d.frame.%d", vc.fnNameOf(fr), li.ord, i+1), "loop.frame", goal, "the loop leaves this location unchanged: "+p[0], blockPos(li.header))
 		}
 	}
 	if ls == nil || len(ls.Invariants) == 0 {
@@ -1864,6 +1892,8 @@ func (vc *VC) intrinsic(fr *Frame, instr ssa.Instruction, callee *ssa.Function, 
 		n = 2
 	case "sort.Search":
 		return vc.sortSearch(fr, instr, args, st)
+	case "sort.Slice", "sort.SliceStable":
+		return vc.sortSlice(fr, instr, args, st)
 	default:
 		return Val{}, false
 	}
@@ -2029,4 +2059,32 @@ func (vc *VC) sortSearch(fr *Frame, instr ssa.Instruction, args []Val, st *State
 	at := apply(r, fmt.Sprintf("(< %s %s)", r, n), "search.at")
 	vc.assume(st, fmt.Sprintf("(and (=> (> %s 0) (not %s)) (=> (< %s %s) %s))", r, below, r, n, at))
 	return Val{T: r, Typ: intT}, true
+}
+
+// sortSlice models sort.Slice(x, less): the elements of the slice are permuted (nothing about the resulting order
+// is promised, since `less` is arbitrary code); everything outside the slice is unchanged.
+func (vc *VC) sortSlice(fr *Frame, instr ssa.Instruction, args []Val, st *State) (Val, bool) {
+	if len(args) < 1 || args[0].Boxed == nil || args[0].Boxed.Sl == nil {
+		return Val{}, false
+	}
+	vc.uses["intrinsic sort.Slice (permutation only)"] = true
+	s := args[0].Boxed.Sl
+	el := args[0].Boxed.Typ.Underlying().(*types.Slice).Elem()
+	comp := vc.elemComp(el)
+	es := vc.sortOf(el)
+	old := fmt.Sprintf("(select %s %s)", vc.get(st, comp), s.Arr)
+	row := vc.freshConst("sorted", fmt.Sprintf("(Array Int %s)", es))
+	vc.n++
+	perm := fmt.Sprintf("perm!%d", vc.n)
+	inv := fmt.Sprintf("perminv!%d", vc.n)
+	vc.emit(fmt.Sprintf("(declare-fun %s (Int) Int)", perm))
+	vc.emit(fmt.Sprintf("(declare-fun %s (Int) Int)", inv))
+	lo, hi := s.Off, addT(s.Off, s.Len)
+	vc.emit(fmt.Sprintf("(assert (forall ((j Int)) (! (=> (and (<= %s j) (< j %s)) (and (<= %s (%s j)) (< (%s j) %s) (= (select %s j) (select %s (%s j))) (= (%s (%s j)) j))) :pattern ((select %s j)))))",
+		lo, hi, lo, perm, perm, hi, row, old, perm, inv, perm, row))
+	vc.emit(fmt.Sprintf("(assert (forall ((i Int)) (! (=> (and (<= %s i) (< i %s)) (and (<= %s (%s i)) (< (%s i) %s) (= (%s (%s i)) i))) :pattern ((%s i)))))",
+		lo, hi, lo, inv, inv, hi, perm, inv, inv))
+	vc.emit(fmt.Sprintf("(assert (forall ((j Int)) (! (=> (or (< j %s) (>= j %s)) (= (select %s j) (select %s j))) :pattern ((select %s j)))))", lo, hi, row, old, row))
+	vc.set(st, comp, fmt.Sprintf("(store %s %s %s)", vc.get(st, comp), s.Arr, row))
+	return Val{}, true
 }
